@@ -130,7 +130,11 @@ def main(argv):
         lf.close()
         if os.path.exists(of):
             with open(of) as f:
-                reports.append(json.load(f))
+                rep = json.load(f)
+            reports.append(rep)
+            if rep.get('partial'):
+                problems.append('shard ended before its cases were finished (exit %s); its report covers %d cases'
+                                % (p.returncode, rep.get('cases_run', 0)))
         else:
             tail = ''
             try:
